@@ -210,7 +210,28 @@ func runFunctional(c *engine.Chooser, k cfg) {
 		return
 	}
 	if rejected != "" {
-		// configurations the constructors refuse with an error are outside "supported parameter sets"
+		// Only refusals the documentation announces are outside "supported parameter sets": a DFT factorisation deeper
+		// than LogSlots (parameters_literal.go: "cannot contain parameters for a depth > LogSlots") and iterations on a
+		// conjugate-invariant residual ring and a double angle with the sine (NewEvaluator). Every other configuration of this family is legal: refusing
+		// it is a violation.
+		depth := func(split [][]int) (d int) {
+			for _, l := range split {
+				d += len(l)
+			}
+			return
+		}
+		switch {
+		case depth(c2sSplits[k.C2S]) > k.LogSlots || depth(s2cSplits[k.S2C]) > k.LogSlots:
+			c.Cover("rejected", "dft-depth-above-LogSlots")
+		case k.Residual == 2 && k.Iter != 0:
+			c.Cover("rejected", "conjugate-invariant-with-iterations")
+		case k.Mod1 == 1 && k.DblAngle > 1:
+			// NewEvaluator: "cannot use double angle formula for Mod1Type = Sin"
+			c.Cover("rejected", "double-angle-with-sine")
+		default:
+			c.Fail("C18/func/legal-configuration-refused", "%s: %s", key, rejected)
+			return
+		}
 		c.Cover("rejected", "constructor-error")
 		c.Note("%s rejected: %s", key, rejected)
 		c.Outcome("rejected", rejected)
